@@ -64,6 +64,21 @@ CHECKS.append({
             "xarray stand-in for arviz.InferenceData; suffixes/band names containing a reserved marker are excluded by hypothesis.",
 })
 
+CHECKS.append({
+    "property_id": "C16",
+    "design_ref": "DESIGN.md 5 (C16)",
+    "technique": "Coq proof (ring/field over R) about sky formulas, hyper-parameter expressions, grid orientation and build_model data flow regenerated "
+                 "from the source by an ast translator + interval-arithmetic correspondence of the real 'model' site with/without sky",
+    "text": "Ten theorems (Props/C16.v) for all image sizes, pixels and sky parameter values: none adds 0, flat adds the constant, tilted-plane adds "
+            "back+(col-N/2)*x_sl+(row-N/2)*y_sl with X=column, Y=row on square frames, reduces to flat at zero slopes, equals the stand-alone function, "
+            "enters obs = out + sky once (after the convolved scene) independently of the sources; sky hyper-parameters are (g,e),(0,e/10),(0,e/10) "
+            "installed as Normal() through an affine transform with TransformReparam.  All definitions are re-extracted on each run; the tie is "
+            "additionally checked numerically inside Coq (interval goals) against real FitSingle/FitMulti traces.",
+    "note": "Trusted: Coq kernel, Interval, Reals axioms; translator units Sky/Grid/BuildModel (pattern extraction, fail-closed); numpyro "
+            "substitute/trace to read the model site; float32 evaluation compared at 2e-6 relative; non-square frames are outside the theorem "
+            "(both pivots use the row count).",
+})
+
 _PENDING = "check not built yet in this session (build order in DESIGN.md section 9); will be claimed once its Coq model, theorems and tie exist"
 NOT_APPLICABLE = [
     {"property_id": "C%02d" % i, "reason": _PENDING}
